@@ -513,6 +513,13 @@ def rerun_case(sc: Scenario, cfg, history, state, done, traced=False, label="gen
             zp = a["zip"] != "a"
             rp = phases(project_trace(real["events"], zp), zp)
             mp = phases(model_ops(m["steps"]), zp)
+            if sc.kind == "lbfgs_cap" and budget_spent(state):
+                # the checkpoint found already holds every iteration maxiter allows: the search returns it
+                # without a further scipy call, hence without a new checkpoint. The model's sampler always
+                # performs a last round (assumption listed below); its checkpoint write is not expected here.
+                ctx.hit("resume:iteration-budget-already-spent")
+                mp = [[op for op in ph if op[:2] != ["put", "internal"]] if k == 0 and isinstance(ph, list) else ph
+                      for k, ph in enumerate(mp)]
             if rp != mp:
                 ctx.disagree("C06.trace", case, {"phases": rp}, {"phases": mp})
     if m["hyp"] and m["safe"] and m["outcome"] != "ok":
@@ -521,6 +528,20 @@ def rerun_case(sc: Scenario, cfg, history, state, done, traced=False, label="gen
         nu = n_updates if traced else 0
         exec_correspondence(sc, cfg, case, mhist, nu, real, done)
     return real
+
+
+def budget_spent(state, maxiter=4):
+    """does the BFGS checkpoint held by this directory state already hold `maxiter` iterations?"""
+    import dill
+
+    for rel, data in state.files.items():
+        if rel.endswith("search_internal.dill"):
+            try:
+                obj = dill.loads(data)
+                return int(obj["total_iterations"]) >= maxiter
+            except Exception:  # torn / unreadable checkpoint: the model's `checkpoint` decides
+                return False
+    return False
 
 
 def diff_state(model_fs, real_fs):
@@ -930,6 +951,9 @@ def run(ctx):
         "the OS survives, data in a Python write buffer does not); os.replace / os.rename / unlink are atomic",
         "DirectoryPaths only (DatabasePaths delegates durability to SQLite transactions and is not modelled)",
         "sampler checkpoints are abstract: complete / partial / absent; dynesty writes its own checkpoint atomically",
+        "every run that finds no completed result performs at least one sampling round; the exception - a BFGS/LBFGS "
+        "checkpoint that already used up maxiter is returned as the result without a further scipy call - is exercised "
+        "(plan lbfgs_cap) against the oracle clauses and the trace minus that one checkpoint write",
         "the model, search settings and unique tag are the same in every run of a history",
     ]
     rng = ctx.rng
